@@ -231,9 +231,15 @@ func c22Execute(x *simkit.Exec, salt string, nNodes, rf int, algo receive.Hashri
 			}
 			n.store.conflictErr = conflictErrs[s.Pick("conflict-kind", n.name, len(conflictErrs))]
 		}
+		// A multi-tenant batch is written tenant by tenant in Go map order and stops at the first
+		// failing tenant, so how often its local write would park depends on that order: scenarios
+		// with a multi-tenant request do not park local writes at all (forwards still park).
+		multiTenant := false
 		for _, r := range reqs {
-			c.nodes[r.entry].store.parkCommit = true
-			c.nodes[r.entry].store.parkTenant = "ta"
+			multiTenant = multiTenant || len(r.tenants) > 1
+		}
+		for _, r := range reqs {
+			c.nodes[r.entry].store.parkCommit = !multiTenant
 			r.acked, r.done, r.result = false, false, ""
 		}
 		if transportFaults {
@@ -262,6 +268,17 @@ func c22Execute(x *simkit.Exec, salt string, nNodes, rf int, algo receive.Hashri
 			return tfNone
 		}
 
+		probed := map[int]bool{}
+		s.OnStep = func() { // at quiescence: was an acknowledgement given while other operations were still pending?
+			for _, r := range reqs {
+				if r.acked && !probed[r.id] {
+					probed[r.id] = true
+					if len(s.ParkedIDs()) > 0 {
+						s.Probe("c22.acked_while_operations_pending")
+					}
+				}
+			}
+		}
 		for _, r := range reqs {
 			r := r
 			en := c.nodes[r.entry]
@@ -307,9 +324,6 @@ func c22Execute(x *simkit.Exec, salt string, nNodes, rf int, algo receive.Hashri
 					return
 				}
 				s.Probe("c22.acked")
-				if len(s.ParkedIDs()) > 0 {
-					s.Probe("c22.acked_before_all_replicas_answered")
-				}
 				// the oracle: at the moment of the acknowledgement every series is stored on a quorum of
 				// its replica nodes (or on the addressed replica).
 				for _, t := range r.tenants {
